@@ -111,6 +111,8 @@ StMenu ==
                             (x :> Calc("mul", <<"p", w>>)) @@ (w :> M!Num(0 - 2))} ELSE {})
        \cup (IF \E j \in DOMAIN slots : slots[j].kind = "der"
              THEN {(x :> Calc("id", <<"d1">>))} ELSE {})
+       \* a computed coefficient whose function no translator can represent (only in families offering it)
+       \cup (IF "loopinc" \in Fns THEN {(x :> Calc("loopinc", <<"q">>))} ELSE {})
 
 Partner(f) == CASE FnArity[f] = 0 -> "two" [] FnArity[f] = 1 -> "inc" [] FnArity[f] = 2 -> "sub" [] OTHER -> "mad"
 
@@ -133,6 +135,14 @@ PickFn ==
           /\ (f = "dsum" => UseData /\ slots[i].kind \notin {"sur", "ro"})   \* data sets are not visible to readouts
           /\ cur' = [fn |-> f, args |-> <<>>]
     /\ UNCHANGED <<c, slots, i>>
+
+\* a reaction that is the exact twin of an earlier one (same rate, same arguments, same stoichiometry): two
+\* identical contributions to one derivative
+Twin ==
+    /\ i <= Len(slots) /\ cur.fn = "none" /\ slots[i].kind = "rxn" /\ DOMAIN c.rxn # {}
+    /\ \E r \in DOMAIN c.rxn : c' = [c EXCEPT !.rxn = @ @@ (slots[i].name :> c.rxn[r])]
+    /\ i' = i + 1
+    /\ UNCHANGED <<slots, cur>>
 
 PickArg ==
     /\ i <= Len(slots) /\ cur.fn # "none" /\ Len(cur.args) < FnArity[cur.fn]
@@ -163,7 +173,7 @@ Commit ==
     /\ cur' = NoCall
     /\ UNCHANGED slots
 
-Next == PickFn \/ PickArg \/ Commit
+Next == PickFn \/ PickArg \/ Commit \/ Twin
 Done == i > Len(slots)
 
 (***************************************************************************)
